@@ -3,6 +3,7 @@ import PersimVerif.Model.Transformers
 import PersimVerif.Lemmas.Imager
 import PersimVerif.Lemmas.ImagerFit
 import PersimVerif.Lemmas.ImagerMesh
+import PersimVerif.Props.C04
 import Mathlib.Data.Rat.Floor
 
 /-!
@@ -289,6 +290,67 @@ example :
     (Output.toList (imagerTransform (fun s _ d => imageShape s d.length) (fun rx ry => some (rx, ry))
         (⟨0, 1, 0, 1, 1/5, 1, 1, 5, 5⟩ : State Rat) true (.coll [])) = [some (5, 5)]) := by
   constructor <;> decide +kernel
+
+/-! ## … and that is a statement about `_transform` itself (composition with C04)
+
+`shape_is_resolution` speaks about the shape bookkeeping of `Model/Imager.lean`.  The pixel content is C04's model
+`Image.transformOne`, whose theorems assume `Image.meshOk` ("the meshes have `resolution + 1` points").  In every
+consistent — hence every reachable — state that assumption holds for the imager's own meshes, so C04's
+`pixel_is_weighted_mass` applies to them: -/
+
+/-- **reachable_image_shape.**  In a consistent state the meshes `_bpnts/_ppnts` satisfy C04's `meshOk` for the
+    reported resolution; therefore `_transform` (C04's model, any weight, any kernel choice, any elementwise kernel,
+    any diagram) does not reject, returns an image with exactly `rx` rows of exactly `ry` entries, and its pixel
+    `[i][j]` is the weighted corner combination of the kernel over the SQUARE
+    `[b0 + i·ps, b0 + (i+1)·ps] × [p0 + j·ps, p0 + (j+1)·ps]` — pixels are squares of the configured size, and the
+    image is the one C04's theorems describe. -/
+theorem reachable_image_shape [BEq K] {s : State K} (hs : Inv s) (sqrt Φ : K → K) (w : Image.Pt K → K)
+    (kc : Image.KernelChoice K) (F : Image.Pt K → K → K → K) (sk : Bool) (dgm : List (Image.Pt K)) :
+    Image.meshOk s.rx.toNat s.ry.toNat (meshB s) (meshP s) ∧
+    ∃ img, Image.transformOne sqrt Φ w kc (Image.vectorize F) s.rx.toNat s.ry.toNat (meshB s) (meshP s) sk dgm
+        = .ok img ∧
+      (img.length : Int) = s.rx ∧ (∀ row ∈ img, (row.length : Int) = s.ry) ∧
+      ∀ (i j : Nat), i < s.rx.toNat → j < s.ry.toNat →
+        Image.pixel? img i j = some (((Image.toBP sk dgm).map fun pt =>
+          w pt * Image.rect (Image.effKernel sqrt Φ kc F pt)
+            (s.b0 + (i : K) * s.ps, s.b0 + ((i + 1 : Nat) : K) * s.ps)
+            (s.p0 + (j : K) * s.ps, s.p0 + ((j + 1 : Nat) : K) * s.ps)).sum) := by
+  obtain ⟨⟨hbl, hbg, _, _, _⟩, ⟨hpl, hpg, _, _, _⟩⟩ := mesh_is_square hs
+  have hok : Image.meshOk s.rx.toNat s.ry.toNat (meshB s) (meshP s) := ⟨hbl, hpl⟩
+  have hrx : ((s.rx.toNat : Nat) : Int) = s.rx := Int.toNat_of_nonneg (by have := hs.rx_pos; omega)
+  have hry : ((s.ry.toNat : Nat) : Int) = s.ry := Int.toNat_of_nonneg (by have := hs.ry_pos; omega)
+  obtain ⟨img, h1, h2, h3, h4⟩ := C04.pixel_is_weighted_mass sqrt Φ w kc F hok sk dgm
+  refine ⟨hok, img, h1, by rw [h2, hrx], fun row hrow => by rw [h3 row hrow, hry], ?_⟩
+  intro i j hi hj
+  have gb : ∀ k (hk : k < (meshB s).length), (meshB s)[k]? = some (s.b0 + (k : K) * s.ps) := by
+    intro k hk; rw [List.getElem?_eq_getElem hk, hbg k hk]
+  have gp : ∀ k (hk : k < (meshP s).length), (meshP s)[k]? = some (s.p0 + (k : K) * s.ps) := by
+    intro k hk; rw [List.getElem?_eq_getElem hk, hpg k hk]
+  rw [h4 i j _ _ _ _ (gb i (by omega)) (gb (i + 1) (by omega)) (gp j (by omega)) (gp (j + 1) (by omega))]
+  rfl
+
+
+/-- the same for every state reached by a valid history -/
+theorem reachable_image_shape_history [BEq K] (b0 b1 p0 p1 ps : K) (hb : b0 < b1) (hp : p0 < p1) (hps : 0 < ps)
+    (ops : List (Op K)) (hops : ∀ op ∈ ops, OpValid op) (sqrt Φ : K → K) (w : Image.Pt K → K)
+    (kc : Image.KernelChoice K) (F : Image.Pt K → K → K → K) (sk : Bool) (dgm : List (Image.Pt K)) :
+    ∃ s0 s, ctor cl b0 b1 p0 p1 ps = .ok s0 ∧ run cl s0 ops = .ok s ∧
+      ∃ img, Image.transformOne sqrt Φ w kc (Image.vectorize F) s.rx.toNat s.ry.toNat (meshB s) (meshP s) sk dgm
+          = .ok img ∧ (img.length : Int) = s.rx ∧ ∀ row ∈ img, (row.length : Int) = s.ry := by
+  obtain ⟨s0, s, h0, hr, hi⟩ := inv_reachable_inv b0 b1 p0 p1 ps hb hp hps ops hops
+  obtain ⟨_, img, h1, h2, h3, _⟩ := reachable_image_shape hi sqrt Φ w kc F sk dgm
+  exact ⟨s0, s, h0, hr, img, h1, h2, h3⟩
+
+/-- non-vacuity: on the default state (5 × 5 pixels of size 1/5) the image of a two-point diagram under the
+    kernel `F pt x y = x·y` has 5 rows -/
+example : ∃ img, Image.transformOne (fun x => x) (fun x => x) (fun _ => (1 : ℚ)) Image.KernelChoice.other
+      (Image.vectorize fun _ x y => x * y) 5 5 (meshB (⟨0, 1, 0, 1, 1/5, 1, 1, 5, 5⟩ : State ℚ))
+      (meshP (⟨0, 1, 0, 1, 1/5, 1, 1, 5, 5⟩ : State ℚ)) true [(0, 1), (1/2, 3/4)] = .ok img ∧
+      (img.length : Int) = 5 := by
+  obtain ⟨_, img, h1, h2, _⟩ := reachable_image_shape (K := ℚ)
+    (s := ⟨0, 1, 0, 1, 1/5, 1, 1, 5, 5⟩) (by refine ⟨?_, ?_, ?_, ?_, ?_, ?_, ?_⟩ <;> norm_num)
+    (fun x => x) (fun x => x) (fun _ => (1 : ℚ)) Image.KernelChoice.other (fun _ x y => x * y) true [(0, 1), (1/2, 3/4)]
+  exact ⟨img, h1, h2⟩
 
 /-! ## the code before e840b92 -/
 
